@@ -180,8 +180,8 @@ def reader_variant(js):
     return walk(copy.deepcopy(js))
 
 
-def read_direct(fa, schema_arg, data):
-    return fa.schemaless_reader(io.BytesIO(data), schema_arg)
+def read_direct(fa, schema_arg, data, **kw):
+    return fa.schemaless_reader(io.BytesIO(data), schema_arg, **kw)
 
 
 def read_skip(fa, w, r, data):
@@ -298,11 +298,15 @@ def one_case(sh, fa, rng, case, tier):
     for off in offs:
         cls = cut_class(leaves, off)
         sh.case(h64("prefix", cls, schema_shape(js)) if off % 7 == 0 else None, True)
-        st, got = guard(read_direct, fa, parsed, data[:off])
+        # a short read is a short read under every handling of undecodable text
+        hue = (None, "replace", "ignore")[off % 3]
+        st, got = guard(read_direct, fa, parsed, data[:off], **({"handle_unicode_errors": hue} if hue else {}))
+        if hue:
+            sh.count("prefix_nonstrict_unicode")
         sh.count("prefix_in_" + cls if cls != "between" else "prefix_between")
         if st == "ok":
-            sh.violation("prefix-accepted", "a %d-byte proper prefix of a %d-byte encoding (cut %s) returned %s" % (off, L, cls, printable(got, 200)),
-                         dict(info0, cut=off, bytes=data[:off][-60:].hex()))
+            sh.violation("prefix-accepted", "a %d-byte proper prefix of a %d-byte encoding (cut %s, handle_unicode_errors=%s) returned %s" % (off, L, cls, hue, printable(got, 200)),
+                         dict(info0, cut=off, bytes=data[:off][-60:].hex(), handle_unicode_errors=hue))
             return
     # the skipped field is the LAST thing in the encoding: nothing after it can reveal a short read
     wp = {"type": "record", "name": WRAP, "fields": [{"name": "keep", "type": "long"}, {"name": "post", "type": js}]}
